@@ -1,0 +1,22 @@
+// Copyright JAMF Software, LLC
+
+//go:build verif
+
+package storage
+
+import "time"
+
+// VerifSweepC, when set by the verification harness, provides the channel that replaces the
+// periodic sweep ticker of the next IndexNotificationQueue.Run, so that sweeps can be triggered
+// deterministically. Build tag verif only.
+var VerifSweepC func() <-chan time.Time
+
+func verifTicker(t *time.Ticker) {
+	if VerifSweepC == nil {
+		return
+	}
+	if c := VerifSweepC(); c != nil {
+		t.Stop()
+		t.C = c
+	}
+}
